@@ -5,7 +5,7 @@ from mc.sched import EPS
 from more_executors._impl.poll import PollExecutor
 
 TOL = 8 * EPS
-KINDS = ("yield1", "yield2", "exc", "twice", "raise1", "raise2", "interval")
+KINDS = ("yield1", "yield2", "exc", "twice", "raise1", "raise2", "interval", "only0")
 CFNS = (None, "true", "false", "raises")
 
 
@@ -22,7 +22,14 @@ def _params():
                             continue
                         if nfut == 3 and (canc or notify) and kind not in ("yield1", "raise1"):
                             continue
+                        if kind == "only0":
+                            continue
                         out.append(dict(nfut=nfut, kind=kind, cfn=cfn, canc=canc, notify=notify))
+    # the poll function resolves only the first future; the *second* (still polling) one is
+    # cancelled while the first is being deregistered; both delegates finish at t=0
+    for cfn in CFNS:
+        for nfut in (2, 3):
+            out.append(dict(nfut=nfut, kind="only0", cfn=cfn, canc=True, notify=False, target=1))
     return out
 
 
@@ -45,7 +52,9 @@ def body(mc, p):
             for d in ds:
                 n = st["seen"].get(d.result, 0) + 1
                 st["seen"][d.result] = n
-                if kind in ("yield1", "raise1", "raise2", "interval") or (kind == "yield2" and n >= 2):
+                if kind == "only0" and d.result != "r0":
+                    continue
+                if kind in ("yield1", "raise1", "raise2", "interval", "only0") or (kind == "yield2" and n >= 2):
                     mc.emit("poll.yield", k=k, r=d.result, out=("ok", "y:" + d.result))
                     d.yield_result("y:" + d.result)
                 elif kind == "exc":
@@ -80,10 +89,10 @@ def body(mc, p):
 
     def mk(j):
         def fn():
-            if j == 1:
+            if j == 1 and kind != "only0":
                 mc.sleep(1.5)        # second delegate completes later (virtual time)
             mc.point()
-            if j == 2:
+            if j == 2 and kind != "only0":
                 raise E("delegate2")  # third delegate fails: never polled
             return "r%d" % j
         return fn
@@ -95,7 +104,7 @@ def body(mc, p):
     mc.spawn(base.worker_loop, "w1", client=False)
     if p["canc"]:
         def canceller():
-            for j in (0,):
+            for j in (p.get("target", 0),):
                 mc.call("cancel:%d" % j, fs[j].cancel)
         mc.spawn(canceller, "can")
     if p["notify"]:
@@ -178,7 +187,7 @@ def check(x):
         firsts = sorted([(e["seq"], e["out"]) for e in ys] + [(e["seq"], ("err", "E2(poll#%d)" % e["k"])) for e in rs])
         if firsts:
             x.require(snap == firsts[0][1], "not-first-yield", detail="future %d is %r, first resolution %r" % (j, snap, firsts[0][1]))
-        elif j == 2:
+        elif j == 2 and p["kind"] != "only0":
             x.require(snap == ("err", "E(delegate2)"), "failed-delegate-outcome", detail=repr(snap))
         else:
             x.require(snap[0] == "pending", "resolved-without-yield", detail=repr(snap))
@@ -212,6 +221,14 @@ def check(x):
                 vetoed = any(q["kind"] == "cancel_fn" and c["seq"] < q["seq"] < e["seq"] for q in log)
                 if vetoed:
                     x.require(e["val"] is False, "veto-ignored")
+                # in the polling stage during the whole call (delegate finished before, not resolved
+                # by anything else): the cancel function must have been consulted and its veto kept
+                j = int(e["op"].split(":")[1])
+                r = "r%d" % j
+                polling = r in resolved_ok and resolved_ok[r] < c["seq"] and not any(
+                    q["r"] == r for q in yields) and not any(r in q["shown"] for q in raises)
+                if polling:
+                    x.require(e["val"] is False, "veto-not-consulted", detail="cancel(%s) returned %r" % (r, e["val"]))
     for name, exc in x.deaths:
         x.require(False, "thread-died", thread=name.split("-")[0], exc=exc[0], detail=exc[2][-500:])
 
